@@ -434,8 +434,13 @@ func (r *recorder) maybeInject(c *vunix.Call, name string) {
 		if c.Name == "epoll_ctl" {
 			fd = c.Arg2
 		}
-		if name == "close" {
-			c.Post = errnoOf(in.kind) // close(2) releases the descriptor even when it reports an error
+		if name == "close" || name == "epctl-del" {
+			// close(2) releases the descriptor even when it reports an error; and a registration whose
+			// EPOLL_CTL_DEL "failed" must still be gone from the kernel's point of view: a DEL of a registered
+			// descriptor cannot fail in reality, and leaving the entry behind would make the kernel report a
+			// closed descriptor for ever once the user holds a Dup of the socket (an artefact of the injection,
+			// not behaviour of the code under test)
+			c.Post = errnoOf(in.kind)
 		} else {
 			c.Skip = true
 			c.Ret = -1
